@@ -10,7 +10,7 @@
     every settings object, every minimiser (strategy tree) and every history of evaluations. *)
 From Coq Require Import List ZArith NArith QArith Reals String.
 From MxlBase Require Import ListX.
-From Fit Require Import LossOps GenLosses FitModel GenFitFacts FitExec LossProofs FitProofs FitWitness.
+From Fit Require Import LossOps GenLosses FitModel FitScipy GenFitFacts FitExec FitScipyExec LossProofs FitProofs FitWitness FitScipyProofs.
 Import ListNotations.
 Open Scope string_scope.
 
@@ -314,6 +314,87 @@ Theorem C20_scipy_not_worse_than_start :
 Proof. exact (scipy_not_worse_than_start_expected gen_fit_facts C20_fit_facts_pinned). Qed.
 Print Assumptions C20_scipy_not_worse_than_start.
 
+(** LocalScipyMinimizer offers fifteen local methods; SciPy honours [bounds=] for eight of them and IGNORES it (with a
+    RuntimeWarning) for CG, BFGS, Newton-CG, dogleg and the trust-region family.  What the wrapper does with [self.method] is a
+    regenerated fact: the shipped code hands the box over for EVERY method and packs [res.x] / [res.fun] untouched *)
+Theorem C20_scipy_shape_pinned :
+  gen_scipy_shape = mkScipyShape BoundsAlways PackResX.
+Proof. vm_compute. reflexivity. Qed.
+Print Assumptions C20_scipy_shape_pinned.
+
+(** the reported loss is the loss at the reported parameters for EVERY method: [scipy_minimize] is any positional optimiser
+    that answers a value it observed at the point it answers -- it may be handed a box or none, honour it or ignore it and
+    answer outside the user's bounds ([honours] = "self.method honours bounds", which the shipped wrapper never consults) *)
+Theorem C20_scipy_reported_loss_for_every_method :
+  forall (T : Type) (O : num_ops T) (honours : bool) (scipy_minimize : list T -> option (list (T * T)) -> vstrat)
+         (clip1 : T * T -> T -> T) (bounds : list (name * (T * T)))
+         (k : fit_kind) (S : settings) (as_deepcopy : option bool) (caller : mstate) (p0 : list (name * T))
+         (caller_after fit_model : mstate) (best_pars : list (name * T)) (loss : T),
+    (forall x0 box, vhonest [] (scipy_minimize x0 box)) ->
+    fit O gen_fit_facts k S as_deepcopy caller p0
+        (local_scipy_minimizer_m O gen_fit_facts gen_scipy_shape honours scipy_minimize clip1 bounds)
+      = (caller_after, FitOk fit_model best_pars loss) ->
+    snd (residual_step O gen_fit_facts k (route S caller p0) caller best_pars) = RVal loss.
+Proof. exact (scipy_m_reported_loss_expected gen_fit_facts gen_scipy_shape C20_fit_facts_pinned C20_scipy_shape_pinned). Qed.
+Print Assumptions C20_scipy_reported_loss_for_every_method.
+
+(** never worse than the start for a method that ignores the box: an optimiser that first evaluates x0 ITSELF (nothing is
+    projected) and answers nothing worse reports a loss [le] the pristine model's loss at p0 -- whatever bounds the caller
+    gave, also bounds that exclude the start or the generating parameters *)
+Theorem C20_scipy_not_worse_than_start_for_every_method :
+  forall (T : Type) (O : num_ops T) (le : T -> T -> Prop) (honours : bool) (clip1 : T * T -> T -> T)
+         (bounds : list (name * (T * T))) (k : fit_kind) (S : settings) (as_deepcopy : option bool) (caller : mstate)
+         (p0 : list (name * T)) (continue_with : option (list (T * T)) -> rloss -> vstrat)
+         (caller_after fit_model : mstate) (best_pars : list (name * T)) (loss : T),
+    (forall box b, vleaves_sat (fun _ f => le f b) (continue_with box (RVal b))) ->
+    fit O gen_fit_facts k S as_deepcopy caller p0
+        (local_scipy_minimizer_m O gen_fit_facts gen_scipy_shape honours (fun x0 box => VAsk x0 (continue_with box)) clip1 bounds)
+      = (caller_after, FitOk fit_model best_pars loss) ->
+    snd (residual_step O gen_fit_facts k (route S caller p0) caller p0) = RInf
+    \/ exists b, snd (residual_step O gen_fit_facts k (route S caller p0) caller p0) = RVal b /\ le loss b.
+Proof. exact (scipy_m_not_worse_than_start_expected gen_fit_facts gen_scipy_shape C20_fit_facts_pinned C20_scipy_shape_pinned). Qed.
+Print Assumptions C20_scipy_not_worse_than_start_for_every_method.
+
+(** regression witness for the shape of seeded change C20-8 (box only for the methods that honour it; otherwise the answer is
+    projected into the box AFTER the optimisation, [np.clip(res.x, lower, upper)], and [res.fun] is reported with it): there
+    is a fit with an honest optimiser whose reported loss is NOT the loss at the reported parameters; the shipped wrapper on the
+    same input reports the same loss with the parameters it belongs to -- which lie outside the caller's interval, as SciPy's
+    bounds-ignoring methods answer *)
+Theorem C20_clipped_answer_reports_foreign_loss :
+  exists (k : fit_kind) (S : settings) (caller : mstate) (p0 : list (name * oQ))
+         (bounds : list (name * (oQ * oQ))) (scipy_minimize : list oQ -> option (list (oQ * oQ)) -> vstrat),
+    (forall x0 box, vhonest [] (scipy_minimize x0 box)) /\
+    exists (caller_after fit_model : mstate) (best_pars : list (name * oQ)) (loss other : oQ) (best_shipped : list (name * oQ)),
+      fit QoOps gen_fit_facts k S None caller p0
+          (local_scipy_minimizer_m QoOps gen_fit_facts (mkScipyShape BoundsIfHonoured PackClippedIfIgnored) false scipy_minimize oq_clip bounds)
+        = (caller_after, FitOk fit_model best_pars loss) /\
+      snd (residual_step QoOps gen_fit_facts k (route S caller p0) caller best_pars) = RVal other /\ other <> loss /\
+      fit QoOps gen_fit_facts k S None caller p0
+          (local_scipy_minimizer_m QoOps gen_fit_facts gen_scipy_shape false scipy_minimize oq_clip bounds)
+        = (caller_after, FitOk fit_model best_shipped loss) /\
+      snd (residual_step QoOps gen_fit_facts k (route S caller p0) caller best_shipped) = RVal loss /\
+      exists n b v, lookup n bounds = Some b /\ In (n, v) best_shipped /\ ~ oq_within b v.
+Proof. exact (clipped_answer_reports_foreign_loss gen_fit_facts gen_scipy_shape C20_fit_facts_pinned C20_scipy_shape_pinned). Qed.
+Print Assumptions C20_clipped_answer_reports_foreign_loss.
+
+(** ... and that shape misreports ONLY where something is clipped: for a method that honours bounds, or an optimiser whose
+    answers lie within the aligned box anyway, the clipping wrapper is as honest as the shipped one *)
+Theorem C20_clipping_wrapper_honest_where_nothing_is_clipped :
+  forall (T : Type) (O : num_ops T) (within : T * T -> T -> Prop) (honours : bool)
+         (scipy_minimize : list T -> option (list (T * T)) -> vstrat) (clip1 : T * T -> T -> T)
+         (bounds : list (name * (T * T))) (k : fit_kind) (S : settings) (as_deepcopy : option bool) (caller : mstate)
+         (p0 : list (name * T)) (caller_after fit_model : mstate) (best_pars : list (name * T)) (loss : T),
+    (forall b v, within b v -> clip1 b v = v) ->
+    (forall x0 box, vhonest [] (scipy_minimize x0 box)) ->
+    honours = true \/
+    (forall x0, vleaves_sat (fun x _ => Forall2 within (aligned_bounds O gen_fit_facts bounds (keys p0)) x) (scipy_minimize x0 None)) ->
+    fit O gen_fit_facts k S as_deepcopy caller p0
+        (local_scipy_minimizer_m O gen_fit_facts (mkScipyShape BoundsIfHonoured PackClippedIfIgnored) honours scipy_minimize clip1 bounds)
+      = (caller_after, FitOk fit_model best_pars loss) ->
+    snd (residual_step O gen_fit_facts k (route S caller p0) caller best_pars) = RVal loss.
+Proof. exact (clipping_reported_loss_partial_expected gen_fit_facts C20_fit_facts_pinned). Qed.
+Print Assumptions C20_clipping_wrapper_honest_where_nothing_is_clipped.
+
 (** non-vacuity: an honest minimiser, a real model (dx/dt = k_in - k_out x), data generated by it; the fit
     finds k_in = 2 with loss 0 from the start k_in = 1 and leaves the caller's model alone *)
 Example C20_nonvacuous :
@@ -345,3 +426,16 @@ Example C20_bounds_nonvacuous :
   clip_box oq_clip (user_first_bounds expected_fit_facts ex_bounds_2 (keys ex_p0_2)) (map snd ex_p0_2) <> map snd ex_p0_2.
 Proof. exact bounds_nonvacuous. Qed.
 Print Assumptions C20_bounds_nonvacuous.
+
+(** non-vacuity of the "every method" theorems: the harness' probe for a bounds-ignoring method is honest, evaluates x0 itself
+    first and answers the smallest value it saw; through the shipped wrapper (p0 = {k_out: 1/2, k_in: 1}, k_in bounded to
+    (3/4, 3/2)) it answers k_in = 2 -- outside the caller's interval -- with the loss 0 that belongs to it *)
+Example C20_methods_nonvacuous :
+  (forall x0 box, vhonest [] (vprobe_m false x0 box)) /\
+  (forall x0 box, vprobe_m false x0 box = VAsk x0 (vprobe_free_kont x0)) /\
+  (forall x0 b, vleaves_sat (fun _ f => oq_le f b) (vprobe_free_kont x0 (RVal b))) /\
+  fit QoOps expected_fit_facts KTimeCourse (ex_settings2 (loss_mean_squared QoOps)) None ex_caller ex_p0_2
+      (local_scipy_minimizer_m QoOps expected_fit_facts shipped_scipy_shape false (vprobe_m false) oq_clip ex_bounds_2)
+  = (ex_caller, FitOk (mkState (al [(1%N, 1 # 2); (2%N, 1 # 2)]) (al [(10%N, 1%Q)])) (al [(2%N, 1 # 2); (1%N, 2%Q)]) (Some 0%Q)).
+Proof. exact methods_nonvacuous. Qed.
+Print Assumptions C20_methods_nonvacuous.
